@@ -107,6 +107,17 @@ let handle toks =
   | "run" :: k :: ops ->
       let (st, outs) = x_run (x_mkState (lst k) x_default_header) (List.map parse_op ops) in
       "OK " ^ show_header st.st_header ^ " " ^ String.concat " " (List.map show_out outs)
+  | ["p_fromhex"; s] -> res show (p_fromhex (lst s))
+  | ["p_a2b"; s] -> res show (p_a2b (lst s))
+  | ["p_str_of_N"; v] -> "OK " ^ show (p_str_of_N (n_of_int (int_of_string v)))
+  | ["p_to_bytes_be"; k; v] -> res show (p_to_bytes_be (nat k) (n_of_int (int_of_string v)))
+  | ["p_hex_lower"; b] -> "OK " ^ show (p_hex_lower (lst b))
+  | ["p_hex_upper"; b] -> "OK " ^ show (p_hex_upper (lst b))
+  | ["p_class"; s] -> "OK " ^ show (p_class (lst s))
+  | ["p_upper"; s] -> "OK " ^ show (p_upper (lst s))
+  | ["p_int_of_dec"; s] -> res (fun v -> string_of_int (int_of_n v)) (p_int_of_dec (lst s))
+  | ["p_int_of_hex"; s] -> res (fun v -> string_of_int (int_of_n v)) (p_int_of_hex (lst s))
+  | ["p_encode_ascii"; s] -> res show (p_encode_ascii (lst s))
   | _ -> "BAD request"
 
 let () =
